@@ -20,7 +20,7 @@
 From Coq Require Import List ZArith NArith Bool Arith Lia.
 From GoProbe.Base Require Import CorrLib.
 From GoProbe.C04 Require Import Model.
-From GoProbe.C30 Require Import Model Corr Proofs Proofs2 Proofs3 WInv RSpec REnv RThm.
+From GoProbe.C30 Require Import C04P1 C04PC Model Corr Proofs Proofs2 Proofs3 WInv RSpec REnv RThm.
 Import ListNotations.
 
 (* Every interleaving is covered by the exploration: for ALL histories, reader kinds and results. *)
@@ -67,14 +67,36 @@ Print Assumptions c30_listing_snapshot_bounded.
    Assumption (hence _partial): totals_no_recur ws - the totals of a day never return to an earlier value
    (false only if a 64-bit counter wraps); without it the model reader can fail: the recovered path can equal the
    path that failed although the directory was renamed twice in between. *)
-Theorem c30_listing_snapshot_partial : forall ws out, totals_no_recur ws ->
+Theorem c30_listing_snapshot_partial : forall ws out, Forall wf_w ws -> totals_no_recur ws ->
   conc (cal_of ws) fs_empty (hist_ops fs_empty ws) (reader_prog false) out ->
   exists o, out = Ok o /\ Forall (tot_ok ws) (o_tots o).
 Proof. exact listing_snapshot. Qed.
 Print Assumptions c30_listing_snapshot_partial.
-(* non-vacuity: hist1 (three write-outs to one day, the last with unchanged totals) meets the hypothesis *)
-Example c30_listing_hyp_example : totals_no_recur hist1.
-Proof. exact hist1_no_recur. Qed.
+
+(* ------------------------------------------------------------------ UNBOUNDED: the query, any history *)
+(* For EVERY history ws and EVERY interleaving of one query run (CreateWorkerJobs + readBlocksAndEvaluate of every
+   interface, with the retry loops of GPDir.Open and GPDir.ReadBlockAtIndex and the lazily created column handles)
+   with the writer's operations: the reader returns Ok, reports no broken block, and every day directory it
+   processed shows exactly the blocks - timestamp and content id, the content decoded from the bytes it read - of
+   the first j write-outs for some j <= length ws (day_ok ws (day, blocks) = exists j <= length ws, blocks =
+   spec_blocks ws day j).  By invariants: the writer invariant now includes the column contents (cols_ok: every
+   committed block reads back its bytes at its offset; writes only at the committed end), the reader logic has a
+   clause for the column acquisition (first attempt through the handle's old name, retry through the current one),
+   the block / column loops of readBlocksAndEvaluate and the tLastCovered clipping.
+   Assumptions (hence _partial), all satisfied by every history DBWriter.Write accepts:
+     Forall wf_w ws      - the bytes_rcvd column of a block is never empty (bitpack emits at least its width byte);
+     ts_incr ws          - the block timestamps of every day increase strictly;
+     totals_no_recur ws  - a day's totals never return to an earlier value (no wrapping 64-bit counter).
+   FULL statement (not discharged): the same without the three assumptions. *)
+Theorem c30_snapshot_partial : forall ws out, Forall wf_w ws -> ts_incr ws -> totals_no_recur ws ->
+  conc (cal_of ws) fs_empty (hist_ops fs_empty ws) (reader_prog true) out ->
+  exists o, out = Ok o /\ o_broken o = 0 /\ Forall (day_ok ws) (o_days o).
+Proof. exact query_snapshot. Qed.
+Print Assumptions c30_snapshot_partial.
+
+(* non-vacuity: hist1 (three write-outs to one day, the last with unchanged totals) meets the assumptions *)
+Example c30_hyp_example : Forall wf_w hist1 /\ ts_incr hist1 /\ totals_no_recur hist1.
+Proof. exact (conj hist1_wf (conj hist1_ts hist1_no_recur)). Qed.
 
 (* non-vacuity: an interleaving of hist1 exists in which the query is stopped before a column open, the
    day directory is renamed, and the reader recovers (model_run follows a schedule = one interleaving) *)
